@@ -7,9 +7,10 @@ LEAN_TARGETS = ["Eliot.Properties.C03"]
 AUDIT = "Eliot/Audit/C03.lean"
 # theorems about the statements of Action.finish *as the source has them now* (extractor E14, lean/Eliot/Generated/Finish.lean)
 FIN_THEOREMS = ["Sys.C03Fin.guard_shape", "Sys.C03Fin.finishRec_finished_noop", "Sys.C03Fin.finishRec_success_is_translated",
-                "Sys.C03Fin.finishRec_failure_is_translated"]
-SKELETON_TARGETS = {"Sys.C03Fin.translated_finish (E14: the statements of Action.finish in source order; World.finishRec is their "
-                    "interpretation)": ("Eliot.Properties.C03Fin", "Eliot/Audit/C03Fin.lean", FIN_THEOREMS)}
+                "Sys.C03Fin.finishRec_failure_is_translated", "Sys.C03Fin.startRec_is_translated", "Sys.C03Fin.buildLog_is_translated",
+                "Sys.C03Fin.start_log_shape"]
+SKELETON_TARGETS = {"Sys.C03Fin.translated_finish (E14: the statements of Action.finish / _start / log in source order; World.finishRec, startRec, buildLog are "
+                    "their interpretation)": ("Eliot.Properties.C03Fin", "Eliot/Audit/C03Fin.lean", FIN_THEOREMS)}
 THEOREMS = ["Sys.C03.finish_idempotent", "Sys.C03.finished_stays_finished", "Sys.C03.no_second_end", "Sys.C03.finish_program_finish",
             "Sys.C03.one_start_message", "Sys.C03.end_message", "Sys.C03.one_end_message", "Sys.C03.failed_iff_raised",
             "Sys.C03.exc_identity", "Sys.C03.program_outcome", "Sys.C03.withBlock_finishes", "Sys.C03.fields_placement",
